@@ -9,9 +9,13 @@
 (*   FastIsCoded  the cost-table evaluation used in mode V returns exactly *)
 (*                the work of the direct recursion (n <= EqN, where the    *)
 (*                direct recursion is still cheap to evaluate)             *)
+(*   RefusedCheap a fan-out chain deeper than limit_recursive_depth is     *)
+(*                refused with little work (the walkers stop at the first   *)
+(*                violation): within PolyBound, outside DevNoMemo's trigger *)
+(*                (cfg MC_LimitsWorkRefused, n up to 40)                    *)
 (* Mode G (Gen cfg written by the driver): EmitDocs prints the documents.  *)
 (***************************************************************************)
-EXTENDS Limits, Json
+EXTENDS Limits, Json, Integers
 CONSTANTS MaxN, EqN, MaxFan
 VARIABLE n
 
@@ -29,6 +33,30 @@ CodedPoly   == \A f \in Families :
 \* table for the evidence: family, n, size, bound, largest ideal counter, largest as-coded counter
 Emit == \A f \in Families :
           PrintT(<<"WORK", f, n, Size(FC(f)), PolyBound(FC(f)), MaxOf(Visits_ideal(FC(f))), MaxOf(Visits_asCodedFast(FC(f)))>>)
+\* limit-aware work: a request refused by limit_recursive_depth / limit_directives costs little although the document is a
+\* fan-out chain -- the walkers stop at the first violation, so no excuse is needed there (and DevNoMemo's trigger is off)
+RecLimits == {8, 12, 16, -1}
+CfgOf(l, d) == [recursive |-> l, directives |-> d]
+RefusedFamilies == {"fanout", "fanoutops", "deepinline"}
+RefusedCheap ==
+  \A f \in RefusedFamilies, l \in RecLimits :
+     LET cfg == CfgOf(l, 1000) C == FC(f) IN
+     n > EffL(cfg) + 1 => /\ WithinBound(Visits_asCodedFastAt(C, cfg), PolyBound(C))
+                          /\ Visits_asCodedFastAt(C, cfg)[1] = 0                 \* refused before validation
+                          /\ ~TriggerNoMemoAt(C, cfg)
+DirRefusedCheap ==
+  \A f \in {"dirfirst", "dirlast"} : n <= 11 =>
+     LET cfg == CfgOf(-1, 1) C == FC(f) IN Visits_asCodedFastAt(C, cfg)[1] = 0 /\ Visits_asCodedFastAt(C, cfg)[4] <= n + 2
+\* the table evaluation of the stopping walkers equals the direct recursion (small limits, so that both outcomes occur)
+FastIsCodedAt ==
+  n <= EqN => \A f \in Families \cup RefusedFamilies \cup {"dirfirst", "dirlast"}, l \in {1, 3, 6, -1}, d \in {-1, 1, 1000} :
+                 Visits_asCodedAt(FC(f), CfgOf(l, d)) = Visits_asCodedFastAt(FC(f), CfgOf(l, d))
+\* with no limit in the way the limit-aware work is the unlimited work
+AtIsPlain == n <= 14 => \A f \in Families : Visits_asCodedFastAt(FC(f), CfgOf(64, 1000)) = Visits_asCodedFast(FC(f))
+
 \* mode G: the documents of the families, for the harness (the fan-out chain only while its work stays below 2^20)
-EmitDocs == \A f \in Families : (f = "fanout" => n <= MaxFan) => PrintT(<<"REPLAY", f, n, ToJson(Family(f, n))>>)
+EmitDocs == /\ \A f \in Families : (f = "fanout" => n <= MaxFan) => PrintT(<<"REPLAY", f, n, ToJson(Family(f, n))>>)
+            \* requests above a recursion limit (the driver pairs them with the limits they exceed) and the directive-limit pair
+            /\ \A f \in RefusedFamilies : n >= 9 => PrintT(<<"REPLAY", f, n, ToJson(Family(f, n))>>)
+            /\ \A f \in {"dirfirst", "dirlast"} : n <= 11 => PrintT(<<"REPLAY", f, n, ToJson(Family(f, n))>>)
 =============================================================================
